@@ -28,6 +28,7 @@ type SpecEnv struct {
 	locals bool // identifiers may refer to local cells of x.fn (loop invariants, asserts)
 	depth  int
 	header *ssa.BasicBlock
+	callSite bool // evaluating a callee's contract at a call site: the callee's ghost call counters are not the caller's
 }
 
 func (x *Exec) specEnv(cur *State, extra map[string]SVal) *SpecEnv {
@@ -535,6 +536,14 @@ func (e *SpecEnv) field(s *SExpr) SVal {
 				if c, ok := obj.(*types.Const); ok {
 					return SVal{w.ConstTerm(c.Val(), c.Type()), c.Type()}
 				}
+				if v, ok := obj.(*types.Var); ok && e.x != nil {
+					if sp := e.u.eng.prog.Package(p); sp != nil {
+						if g, ok := sp.Members[s.Name].(*ssa.Global); ok {
+							l := &Loc{Kind: "cell", Key: g, Root: v.Type()}
+							return SVal{e.x.term(e.x.load(l, e.cur)), v.Type()}
+						}
+					}
+				}
 				e.fail("unsupported package member %s.%s", id.Name, s.Name)
 			}
 		}
@@ -615,10 +624,18 @@ func (e *SpecEnv) addrOf(s *SExpr) SVal {
 
 func (e *SpecEnv) importedPkg(name string) *types.Package {
 	if e.pkg != nil {
+		var found *types.Package
 		for _, p := range e.pkg.Imports() {
 			if p.Name() == name {
-				return p
+				// several imports may share a name (stdlib errors under an alias and the
+				// repository's errors package): the repository's one wins
+				if found == nil || strings.HasPrefix(p.Path(), modulePath) {
+					found = p
+				}
 			}
+		}
+		if found != nil {
+			return found
 		}
 	}
 	// well-known packages even when not imported by the package under contract
@@ -768,10 +785,39 @@ func (e *SpecEnv) call(s *SExpr) SVal {
 				return SVal{Ite(Le(a, b), a, b), numT(args[0], args[1])}
 			}
 			return SVal{Ite(Ge(a, b), a, b), numT(args[0], args[1])}
+		case "istype", "astype":
+			// istype(e, *pkg.T): the dynamic type of interface value e is *pkg.T; astype: the value
+			if len(s.Args) != 3 {
+				e.fail("%s(e, T)", fnx.Name)
+			}
+			iv := e.eval(s.Args[1])
+			ts := typeSyntax(s.Args[2])
+			gt, _ := e.resolveType(ts)
+			if gt == nil {
+				e.fail("%s: unknown type %s", fnx.Name, ts)
+			}
+			if fnx.Name == "istype" {
+				return SVal{Eq(app(SInt, "iface.tag", iv.T), w.TypeTag(gt)), boolT}
+			}
+			return SVal{w.UF("unbox."+typeKey(gt), w.SortOf(gt), iv.T), gt}
+		case "errorsIs":
+			evalArgs()
+			e.u.usedPureUF["errors.Is"] = true
+			return SVal{w.UF("errors.Is", SBool, args[0].T, args[1].T), boolT}
+		case "box":
+			// the interface value holding a (pointer) value of the argument's static type
+			evalArgs()
+			if args[0].GT == nil {
+				e.fail("box of value with unknown type")
+			}
+			return SVal{w.UF("box."+typeKey(args[0].GT), SIface, args[0].T), types.Universe.Lookup("error").Type()}
 		case "calls":
 			// ghost: how many times the named contracted function was called on this path
 			if len(s.Args) != 2 || s.Args[1].Kind != "str" {
 				e.fail("calls(\"(*pkg.T).Method\") expects a string literal")
+			}
+			if e.callSite {
+				return SVal{e.u.W.Fresh("callee.calls", SInt), intT}
 			}
 			if c, ok := e.cur.cells["calls:"+s.Args[1].Name].(Term); ok {
 				return SVal{c, intT}
@@ -1006,4 +1052,19 @@ func (e *SpecEnv) frameItem(item string) (res []FrameItem, err error) {
 		return []FrameItem{{heap: heapName(gt), text: item, pred: func(p Term) Term { return TTrue }}}, nil
 	}
 	return nil, fmt.Errorf("modifies item %q: expected e.*, e[*] or heap(T)", item)
+}
+
+// typeSyntax renders a spec expression that denotes a type (*pkg.T, pkg.T, T) as type syntax.
+func typeSyntax(s *SExpr) string {
+	switch s.Kind {
+	case "ident":
+		return s.Name
+	case "field":
+		return typeSyntax(s.Args[0]) + "." + s.Name
+	case "un":
+		if s.Op == "*" {
+			return "*" + typeSyntax(s.Args[0])
+		}
+	}
+	return "?"
 }
